@@ -244,6 +244,9 @@ type spec struct {
 	alpha    []string
 	// learned: options this automaton acknowledged in a pure Configure-Ack under this spec
 	acceptable map[string]bool
+	// learned: options this automaton answered with Configure-Nak / Configure-Reject when they stood alone
+	// in a Configure-Request under this spec (value = the answer's code name)
+	offending map[string]string
 }
 
 var ourMagic = uint32(0xA1B2C3D4)
@@ -267,6 +270,7 @@ func allSpecs() []*spec {
 	}
 	for _, x := range s {
 		x.acceptable = map[string]bool{}
+		x.offending = map[string]string{}
 		x.alpha = alphabet(x)
 	}
 	return s
@@ -294,6 +298,7 @@ type caseCtx struct {
 	nakAddr  net.IP          // IP-Address the automaton last suggested in a Configure-Nak (observed)
 	own      map[string]bool // magic numbers / interface identifiers the automaton used itself
 	accepted string          // description of the latest non-matching reply the automaton acted on (for witness texts)
+	reqLog   []*reqObs       // every Configure-Request delivered in this case and the answer observed (content_test.go)
 }
 
 func (c *caseCtx) send(proto uint16, data []byte) {
@@ -420,6 +425,9 @@ func alphabet(sp *spec) []string {
 	// new = an id it never used. alt = cur with altered option bytes.
 	a := []string{"Up", "Down", "Open", "Close", "TO",
 		"RCR+", "RCR-", "RCRrej", "RCRmix",
+		// request content (content_test.go): one option alone, a repeated option (same value), a repeated
+		// option type with different values, no options at all
+		"RCRone", "RCRdup", "RCRdupx", "RCRempty",
 		"RCAcur", "RCAold", "RCAnc", "RCAnew", "RCAalt",
 		"RCNcur", "RCNold", "RCNnc", "RCNnew",
 		"RCJcur", "RCJold", "RCJnc", "RCJnew",
@@ -478,7 +486,7 @@ func (c *caseCtx) applicable(kind string) bool {
 	return true
 }
 
-var walkOnly = []string{"ADV:half", "ADV:rt-1", "ADV:rt+1", "ADV:2rt", "RCApeer", "RCNpeer", "RCJpeer", "RACE:RCNold", "RACE:RCJnc", "RACE:RCAnew"}
+var walkOnly = []string{"RCRunk", "RCRperm", "RCRmax", "RCRall", "ADV:half", "ADV:rt-1", "ADV:rt+1", "ADV:2rt", "RCApeer", "RCNpeer", "RCJpeer", "RACE:RCNold", "RACE:RCJnc", "RACE:RCAnew"}
 
 func handlerOf(kind string) string {
 	k := strings.TrimPrefix(kind, "RACE:")
@@ -705,6 +713,9 @@ func (c *caseCtx) concretise(kind string, r *rand.Rand) (p []byte, ok bool) {
 		default:
 			return mkPkt(cConfRej, id, encOpts(c.replyOpts('J', r))), true
 		}
+	}
+	if p, ok := c.concretiseContent(kind, r); ok {
+		return p, true
 	}
 	switch kind {
 	case "RCR+":
